@@ -228,14 +228,16 @@ def guard_of(lit_sv, limit):
     if lit_sv[0] != 'bin':
         return None
     op, a, b = lit_sv[1], lit_sv[2], lit_sv[3]
-    if op == 'Gt' and b == limit:
-        return a, True
-    if op == 'Lt' and a == limit:
-        return b, True
-    if op == 'Ge' and b == limit:
-        return a, False
-    if op == 'Le' and a == limit:
-        return b, False
+    # (cost, relation that holds when the literal is TRUE, relation when FALSE); relations are
+    # between cost c and limit l
+    FLIP = {'Gt': 'Lt', 'Lt': 'Gt', 'Ge': 'Le', 'Le': 'Ge'}
+    NEG = {'Gt': 'Le', 'Le': 'Gt', 'Lt': 'Ge', 'Ge': 'Lt'}
+    if op not in FLIP:
+        return None
+    if b == limit:
+        return a, op, NEG[op]
+    if a == limit:
+        return b, FLIP[op], NEG[FLIP[op]]
     return None
 
 
@@ -256,19 +258,23 @@ def check_oog_discipline(fx, rep, f, limit_arg):
         for (sv, lit, _f, _b) in r.lits:
             g = guard_of(sv, limit)
             if g is not None:
-                guards.append((g[0], g[1], lit_truth(lit)))
+                tv = lit_truth(lit)
+                if tv is not None:
+                    guards.append((g[0], g[1] if tv else g[2]))      # (cost, relation cost ? limit on this path)
         g_ok = ok_gas(r.ret)
         if g_ok is not None:
             oks += 1
-            passing = [c for c, strict, tv in guards if tv is False]
-            if any(not strict for c, strict, tv in guards):
+            passing = [c for c, rel in guards if rel == 'Le']
+            if any(rel == 'Lt' for c, rel in guards):
                 problems.append('the limit test is not strict: a cost equal to the gas limit must succeed')
             if g_ok not in passing:
                 problems.append('a successful return reports gas_used = %s, which is not the amount tested against the gas limit on that path (%s)' % (
                     render(g_ok)[:60], [render(c)[:40] for c in passing] or 'no test'))
         elif is_oog(r.ret):
             oogs += 1
-            if not any(tv is True for c, strict, tv in guards):
+            if any(rel == 'Ge' for c, rel in guards):
+                problems.append('the limit test is not strict: a cost equal to the gas limit must succeed')
+            elif not any(rel == 'Gt' for c, rel in guards):
                 problems.append('OutOfGas is returned without the cost exceeding the limit')
     if oks == 0:
         problems.append('no successful path recognised')
